@@ -19,8 +19,15 @@ def scenario(n, path, rstack, drops, again):
 
             await w.ezsp.connect(use_thread=False)
             if rstack == "early":
+                w.ncp.boot_delay = 0.4   # (were the host to reset an NCP that has just announced itself, the NCP would be deaf for a while)
                 w.ncp.out.append(__import__("harness.ashlib", fromlist=["x"]).spec_wire("K", code=0x0B))
                 w.pump()
+            elif rstack == "crossing":
+                # the NCP is still booting when the port opens: its spontaneous power-on RSTACK crosses the host's RST on the
+                # wire (it arrives while the host's reset request is pending), the acknowledgement of the RST follows
+                w.ncp.boot_delay = 0.4
+                w.loop.call_later(1.1 if not path.startswith("/dev") else 0.1,
+                                  lambda: (w.ncp.out.append(__import__("harness.ashlib", fromlist=["x"]).spec_wire("K", code=0x02)), w.pump()))
             elif rstack == "late":
                 w.loop.call_later(1.5, lambda: (w.ncp.out.append(__import__("harness.ashlib", fromlist=["x"]).spec_wire("K", code=0x0B)), w.pump()))
             await w.ezsp.startup_reset()
@@ -89,7 +96,7 @@ def oracle(n, path, rstack, drops, again, o):
     if o["misframed"]:
         return f"NCP v{n} received frames it cannot parse in its current format: {o['misframed'][:3]}"
     fr = [bytes.fromhex(x) for x in o["frames"]]
-    if path.startswith("/dev") or rstack != "early":
+    if path.startswith("/dev") or rstack != "early":  # (a spontaneous start-up reset seen on a TCP path replaces the host's own)
         if RST not in b"".join(o["wire_h2n"][:2]):
             return f"the ASH reset handshake was not performed first (first writes {[hx(b) for b in o['wire_h2n'][:2]]})"
     if not fr or fr[0][1:] != bytes([0, 0, 4]):
@@ -125,6 +132,12 @@ def cases(ctx):
         cs.append((n, "socket://127.0.0.1:6638", "early", (0, 0), True))
         cs.append((n, "socket://127.0.0.1:6638", "late", (0, 0), False))
         cs.append((n, "socket://127.0.0.1:6638", None, (0, 0), False))
+    for n in versions:
+        # URL schemes are case-insensitive; a power-on RSTACK may cross the host's RST
+        cs.append((n, "Socket://127.0.0.1:6638", "early", (0, 0), n % 2 == 0))
+        cs.append((n, "SOCKET://127.0.0.1:6638", None, (0, 0), False))
+        cs.append((n, "/dev/ttyUSB0", "crossing", (0, 0), n % 2 == 1))
+        cs.append((n, "socket://127.0.0.1:6638", "crossing", (0, 0), False))
     for n in versions:
         for path, rstack in (("/dev/ttyUSB0", None), ("socket://127.0.0.1:6638", "early"), ("socket://127.0.0.1:6638", None)):
             if n in (4, 7, 8, 13, 14, 15) or ctx.tier == "thorough":
